@@ -16,6 +16,16 @@ CHECKS = {
              'spelling of a name); the evidence counts what was actually compared.',
         note='Trusts the disc serialiser of vf.discmodel (written from the format description, validated against '
              'the repository golden images) and the Python renderers.  HDFS excluded (documented as unsupported).'),
+    'C02': dict(
+        category='exploration', design_ref='DESIGN.md section 2, C02',
+        technique='reference-model monitor: independent catalogue decoder vs info / cat / show-titles / .inf output',
+        text='Generated catalogues with known field values; every info line is compared field by field, cat is '
+             'compared by information content (title, cycle, option, density, drive, multiset of entries with lock '
+             'marks, sortedness) in all ui styles, show-titles exactly, every .inf field incl. an independent '
+             'XMODEM CRC.  The mixed high-bits byte is swept over all 160 values a well-formed disc can hold '
+             '(start_hi + len_hi <= 3) in every run; low words include the boundary values.',
+        note='Column layout of cat/info is not judged.  Names avoid . : # * " and the name L.  Trusts the '
+             'serialiser and decoder in vf.discmodel / vf.refmodel.'),
 }
 
 PENDING_REASON = 'check not built yet in this revision of /verif (see DESIGN.md section 7 for the order of work)'
